@@ -513,10 +513,90 @@ func closureOrigin(v ssa.Value) *ssa.Function {
 				return fn
 			}
 		}
+		// load from a captured variable (FreeVar) that the enclosing function binds to a cell holding a closure
+		// stored exactly once (a local helper closure called from another local closure)
+		if fv, ok := x.X.(*ssa.FreeVar); ok {
+			if a := freeVarCell(fv); a != nil && !storedThroughCapture(a) {
+				var fn *ssa.Function
+				cnt := 0
+				for _, r := range *a.Referrers() {
+					if s, ok := r.(*ssa.Store); ok && s.Addr == a {
+						cnt++
+						fn = closureOrigin(s.Val)
+					}
+				}
+				if cnt == 1 {
+					return fn
+				}
+			}
+		}
 	case *ssa.ChangeType:
 		return closureOrigin(x.X)
 	}
 	return nil
+}
+
+// freeVarCell: the Alloc in the enclosing function that a free variable is bound to (same cell at every
+// MakeClosure of that function), or nil.
+func freeVarCell(fv *ssa.FreeVar) *ssa.Alloc {
+	fn := fv.Parent()
+	par := fn.Parent()
+	if par == nil {
+		return nil
+	}
+	idx := -1
+	for i, f := range fn.FreeVars {
+		if f == fv {
+			idx = i
+		}
+	}
+	if idx < 0 {
+		return nil
+	}
+	var cell *ssa.Alloc
+	for _, b := range par.Blocks {
+		for _, in := range b.Instrs {
+			mc, ok := in.(*ssa.MakeClosure)
+			if !ok || mc.Fn != fn {
+				continue
+			}
+			a, ok := mc.Bindings[idx].(*ssa.Alloc)
+			if !ok || (cell != nil && cell != a) {
+				return nil
+			}
+			cell = a
+		}
+	}
+	return cell
+}
+
+// storedThroughCapture: does any closure of the cell's function store into the cell through a captured reference?
+func storedThroughCapture(a *ssa.Alloc) bool {
+	par := a.Parent()
+	var rec func(f *ssa.Function) bool
+	rec = func(f *ssa.Function) bool {
+		for _, b := range f.Blocks {
+			for _, in := range b.Instrs {
+				if st, ok := in.(*ssa.Store); ok {
+					if fv, ok := st.Addr.(*ssa.FreeVar); ok && freeVarCell(fv) == a {
+						return true
+					}
+				}
+			}
+		}
+		for _, g := range f.AnonFuncs {
+			if rec(g) {
+				return true
+			}
+		}
+		return false
+	}
+	for _, g := range par.AnonFuncs {
+		if rec(g) {
+			return true
+		}
+	}
+	return false
 }
 
 // loopModSet: what a loop body may modify.
